@@ -144,9 +144,13 @@ SidecarExts == {Q(".abstract"), Q(".keywords"), Q(".ask"), Q(".3d")}
 ---------------------------------------------------------------------------------
 (* The archive /z.zip: VFSZip answers from its in-memory index *)
 ZipBase == Q("/z.zip")
-Member(sel) == LET a == SubSeq(sel, Len(ZipBase) + 1, Len(sel))
-                   b == IF Len(a) > 0 /\ a[1] = "/" THEN Tail(a) ELSE a
-               IN IF Len(b) > 0 /\ b[Len(b)] = "/" THEN SubSeq(b, 1, Len(b) - 1) ELSE b
+\* VFSZip._getfspathfinal strips the archive name and one slash at either end; the index lookup
+\* (os.path.split + per-component walk) ignores empty components ("md//new" finds md/new)
+RECURSIVE JoinSlash(_)
+JoinSlash(names) == IF Len(names) = 0 THEN <<>>
+                    ELSE IF Len(names) = 1 THEN names[1]
+                    ELSE names[1] \o <<"/">> \o JoinSlash(Tail(names))
+Member(sel) == JoinSlash(SelectSeq(SplitQ(SubSeq(sel, Len(ZipBase) + 1, Len(sel)), "/"), LAMBDA n : n # <<>>))
 \* VFSZip.stat reports the fixed mode 0100644 for every regular member ("ZipModeFixed")
 ZipStat(sel) ==
     LET m == Member(sel) IN
@@ -177,7 +181,7 @@ ZipBaseOf(vfs, hs) ==
 (* stat/open/list consulted something outside the root, rel = an archive-internal relative   *)
 (* path reached the operating system.                                                        *)
 Outcome(h, route, resp, lsel, tainted, rel) ==
-    [h |-> h, route |-> route, resp |-> resp, lsel |-> lsel, tainted |-> tainted, rel |-> rel]
+    [h |-> h, route |-> route, resp |-> resp, lsel |-> lsel, tainted |-> tainted, rel |-> rel, lazy |-> FALSE]
 
 Remove(list, x) == SelectSeq(list, LAMBDA y : y # x)
 Range(f) == {f[i] : i \in DOMAIN f}
@@ -241,7 +245,8 @@ Dispatch(d, list, vfs, all) ==
     ELSE LET h == list[CHOOSE i \in hits : \A j \in hits : i <= j] IN
          CASE h = "URLTypeRewriter" ->
                   LET o == Dispatch(SubSeq(d, 3, Len(d)), Remove(all, h), "real", all)
-                  IN [o EXCEPT !.route = "rewrite/" \o o.route, !.tainted = o.tainted \/ used]
+                  IN [o EXCEPT !.route = "rewrite/" \o o.route, !.tainted = o.tainted \/ used,
+                               !.lsel = IF o.h = "none" THEN o.lsel ELSE d]
            [] h = "ZIPHandler" ->
                   LET o == Dispatch(d, all, "zip", all)
                   IN [o EXCEPT !.h = "ZIPHandler", !.route = "zip/" \o o.route, !.tainted = o.tainted \/ used]
@@ -254,11 +259,15 @@ Dispatch(d, list, vfs, all) ==
                   Outcome(h, h, IF vfs = "real" THEN "ok" ELSE "any", d, used, vfs # "real")
            [] h = "ExecHandler" -> Outcome(h, h, "any", d, used, vfs # "real")
            [] h \in {"UMNDirHandler", "DirHandler"} ->
-                  Outcome(h, h, DirResp(d, IF vfs = "real" THEN Children(s0.at) ELSE ZipChildren(s0.at)), d, used, FALSE)
+                  \* lazy: the failure happens in prepare(), which a Gopher+ "!" request never calls
+                  [Outcome(h, h, DirResp(d, IF vfs = "real" THEN Children(s0.at) ELSE ZipChildren(s0.at)), d, used, FALSE)
+                     EXCEPT !.lazy = TRUE]
            [] OTHER -> Outcome(h, h, "ok", d, used, FALSE)
 
 HandlerList(hl) == IF hl = "full" THEN FullList ELSE DefaultList
 Serve(d, hl) == Dispatch(d, HandlerList(hl), "real", HandlerList(hl))
+\* response class per frame: Gopher+ item information ("!") asks for the entry only - no prepare(), no write()
+FrameResp(fr, o) == IF fr = "GPI" /\ o.lazy THEN "ok" ELSE o.resp
 
 ---------------------------------------------------------------------------------
 (* The design argument, clause by clause (evaluated by TLC for every enumerated selector)   *)
